@@ -2,6 +2,7 @@
 """Confirm a seeded breaking change produced by an independent sub-agent and record which checks catch it.
 
 usage: tools/seeded.py confirm <ID> [--checks C01,C09,...] [--wt <worktree>] [--tag <record name>]     (worktree /tmp/wt-<ID> with seeded_out/{patch.diff,demo.py,meta.json})
+       tools/seeded.py recheck <record> [...]     (apply each stored patch to a scratch worktree of /repo HEAD, run the checks recorded as catching it)
        tools/seeded.py reconfirm <record> [<record> ...] [--checks ...]     (stored records seeded/<record>/ against /repo HEAD, fresh scratch worktree each)
 
 Steps (all in the scratch worktree, never in /repo):
@@ -111,7 +112,50 @@ def reconfirm(name, checks):
         sh("git -C /repo worktree prune")
 
 
+def recheck(names):
+    """Quick regression of the records: apply each stored patch to a scratch worktree of /repo HEAD and run the checks that caught it
+    when it was confirmed (all of them); report any that no longer does.  The records are not rewritten, except for a
+    `rechecked` entry naming the HEAD and the checks that still catch the change."""
+    head = sh("git -C /repo rev-parse --short HEAD").stdout.strip()
+    wt = f"/tmp/wt-recheck-{os.getpid()}"
+    sh(f"git -C /repo worktree remove --force {wt}")
+    r = sh(f"git -C /repo worktree add -q --detach {wt} HEAD")
+    if r.returncode:
+        print("cannot create worktree", r.stderr)
+        return 2
+    bad = 0
+    try:
+        for name in names:
+            src = os.path.join(VERIF, "seeded", name)
+            meta = json.load(open(os.path.join(src, "meta.json")))
+            sh(f"git -C {wt} checkout -q -- .")
+            r = sh(f"git -C {wt} apply {os.path.join(src, 'patch.diff')}")
+            if r.returncode:
+                print(name, "PATCH-DOES-NOT-APPLY", flush=True)
+                bad += 1
+                continue
+            want = [c["check"] for c in meta.get("caught_by", [])]
+            scratch = f"/tmp/seedout-recheck-{os.getpid()}"
+            still, lost = [], []
+            for c in want:
+                env = dict(os.environ, VERIF_REPO=wt, VERIF_OUT=scratch, VERIF_SEED="1")
+                rr = sh([os.path.join(VERIF, "check"), c, "quick"], env=env, cwd=VERIF)
+                (still if (rr.returncode == 1 and f"VIOLATION property={c}" in rr.stdout) else lost).append(c)
+            shutil.rmtree(scratch, ignore_errors=True)
+            meta["rechecked"] = {"repo_head": head, "still_caught_by": still, "no_longer_caught_by": lost}
+            json.dump(meta, open(os.path.join(src, "meta.json"), "w"), indent=1)
+            print(name, "OK" if still and not lost else ("LOST:" + ",".join(lost) if still else "NOT-CAUGHT"), "still=" + ",".join(still), flush=True)
+            if not still:
+                bad += 1
+    finally:
+        sh(f"git -C /repo worktree remove --force {wt}")
+        sh("git -C /repo worktree prune")
+    return 1 if bad else 0
+
+
 def main(argv):
+    if len(argv) >= 2 and argv[0] == "recheck":
+        return recheck(argv[1:])
     if len(argv) >= 2 and argv[0] == "reconfirm":
         checks = argv[argv.index("--checks") + 1].split(",") if "--checks" in argv else ALL
         bad = 0
